@@ -342,3 +342,20 @@ package native
 //@ requires d != nil
 //@ loop 0 invariant[stored] forallkeys(reqs, k, has(reqs, k) && visited(k) ==> has(dao.kv(d, o.ID), reqKey(k)))
 //@ call AddRequests requires[stored] forallkeys(arg1, k, has(arg1, k) ==> has(dao.kv(d, o.ID), reqKey(k)))
+
+// (C05) Notary withdraw: the deposit removed is the witnessed owner's own, only once its lock height
+// has been reached, and before - not after, not without - the GAS transfer that pays it out; the
+// transfer is a call of the GAS contract that returns a value.
+//@ prop C05
+//@ iface IGAS.Metadata
+//@ assumed
+//@ pure
+//@ func (*Notary).withdrawDeferrable
+//@ may-panic
+//@ opt frame off
+//@ opt callbacks pure
+//@ requires[typeinv] ic != nil && ic.VM != nil && runtime.wfSigners(ic)
+//@ call removeDepositFor requires[own] arg2 == from && ncalls(CallFromNative) == 0 && ncalls(removeDepositFor) == 0
+//@ call removeDepositFor requires[unlocked] deposit != nil && interop.height(ic) >= deposit.Till
+//@ call CallFromNative requires[payout] ncalls(removeDepositFor) == 1 && arg2 == cs && arg5
+//@ call CallFromNative requires[amount] len(arg4) == 4 && is(arg4[2], *stackitem.BigInteger) && (*big.Int)(arg4[2].(*stackitem.BigInteger)) == deposit.Amount
